@@ -102,7 +102,7 @@ def life_sequences(rng, tier):
         for op in s:
             withc.append(op)
             if op in "SR":
-                withc += rng.choice([["c"], ["t"], ["c", "t"], ["c", "c", "d"], ["t", "d", "c"], []])
+                withc += rng.choice([["c"], ["t"], ["c", "t"], ["c", "c", "d"], ["t", "d", "c"], [], ["j"], ["t", "j", "h"], ["h", "c"], ["j", "j", "t", "d"]])
         out.append("".join(withc))
     for _ in range(40 if tier == "quick" else 600):
         n = rng.randint(3, 14)
@@ -111,7 +111,7 @@ def life_sequences(rng, tier):
             if not running:
                 op = rng.choice("SR"); running = True
             else:
-                op = rng.choice("XRctcdt")
+                op = rng.choice("XRctcdtjh")
                 if op == "X":
                     running = False
             s.append(op)
